@@ -278,8 +278,7 @@ def features(s):
     return f
 
 
-STRUCT = dict(prod=lambda rng, it: G.product_case(rng), inflate=lambda rng, it: G.inflate_case(rng), loop=lambda rng, it: G.loop_case(rng),
-              orders=lambda rng, it: next(it))
+STRUCT = dict(prod=G.product_case, inflate=G.inflate_case, loop=G.loop_case)
 
 
 def v_plan(c, ncases, maxdepth, npy, struct):
@@ -298,7 +297,7 @@ def v_plan(c, ncases, maxdepth, npy, struct):
         lean = i < ncases
         if i % 3 == 2:
             if lean and i % 6 == 5:
-                plan.append((lean, (lambda k: lambda: STRUCT[k](c.rng, None))(c.rng.choice(['prod', 'inflate', 'loop']))))
+                plan.append((lean, (lambda k: lambda: STRUCT[k](c.rng, small=True))(c.rng.choice(['prod', 'inflate', 'loop']))))
             else:
                 plan.append((lean, lambda: fem_case(c.rng)))
         else:
@@ -313,7 +312,7 @@ def v_plan(c, ncases, maxdepth, npy, struct):
         elif kind == 'dag5':
             extra += [(False, dag5)] * n
         else:
-            extra += [(False, (lambda k: lambda: STRUCT[k](c.rng, None))(kind))] * n
+            extra += [(False, (lambda k: lambda: STRUCT[k](c.rng))(kind))] * n
     return plan + extra
 
 
@@ -680,6 +679,72 @@ def m_assparse(c, n):
     c.obligation('corr:assparse-merge+as_csr', nbad == 0, 'correspondence', '%d entry lists (duplicates, empty, 1-3 dims)' % len(cases))
 
 
+def judge_chunks(val, ref):
+    """exact oracle for evaluated `_assparse` chunks: None when they accumulate to `ref`, else the failed clause"""
+    acc, bad = {}, None
+    for ch in val:
+        *idx, v = [numpy.asarray(a) for a in ch]
+        if any(i.shape != v.shape or i.dtype.kind not in 'iu' for i in idx) or len(idx) != ref.ndim: return 'format'
+        for pos in itertools.product(*[range(k) for k in v.shape]):
+            t = tuple(int(i[pos]) for i in idx)
+            if any(not 0 <= a < b for a, b in zip(t, ref.shape)): bad = 'range'
+            acc[t] = acc.get(t, 0) + frac(v[pos])
+    if bad is None:
+        for pos in itertools.product(*[range(k) for k in ref.shape]):
+            if acc.get(pos, 0) != frac(ref[pos]): return 'scatter'
+    return bad
+
+
+def m_blockpos(c, n):
+    """the position at which `Inflate._assparse` looks the chunk indices of the trailing dofmap.ndim axes up in the flattened dofmap
+    (the `indices` of the `Take(flat_dofmap, ...)` it builds), for dofmaps of 1..4 axes: real code vs the Lean model (`blockStrides`,
+    `stridedPos`) vs the row-major position (theorem `inflate_block_position`).  Failing input: decided by the exact chunk oracle."""
+    cases = []
+    for _ in range(n):
+        rng = c.rng
+        k = rng.choice([1, 2, 2, 3, 3, 3, 4, 4])
+        dshape = G.block_shape(rng, k, maxsize=48)
+        kshape = tuple(rng.choice([1, 2, 3]) for _ in range(rng.choice([0, 0, 1])))
+        size = int(numpy.prod(dshape))
+        N = size + rng.choice([0, 1, 3])
+        dm = numpy.array(rng.sample(range(N), size), dtype=int).reshape(dshape)     # injective: the dof identifies the block index
+        a = numpy.array([rng.randint(-4, 4) for _ in range(size * int(numpy.prod(kshape)))], dtype=float).reshape(kshape + dshape)
+        cases.append((dshape, kshape, N, dm, a))
+    ans = yield ['blockpos|%s|%s' % (ints(d), lists(itertools.product(*[range(m) for m in d]))) for d, _, _, _, _ in cases]
+    nbad = nchecked = 0
+    for (dshape, kshape, N, dm, a), answer in zip(cases, ans):
+        tuples = list(itertools.product(*[range(m) for m in dshape]))
+        X = ev.Inflate(ev.Argument('a', tuple(ev.constant(m) for m in kshape + dshape), float), ev.Constant(types.arraydata(dm)), ev.constant(N))
+        ref = numpy.zeros(kshape + (N,))
+        for pos in tuples: ref[(Ellipsis, dm[pos])] += a[(Ellipsis,) + pos]
+        c.case(('blockpos', dshape, kshape, N, dm.tobytes()), nontrivial=len(dshape) >= 2); c.count('M:blockpos:%dd-dofmap' % len(dshape))
+        replay = dict(op='Inflate._assparse block position', dofmap=dm.tolist(), length=N, func=a.tolist(), model=answer)
+        def run():
+            chunks = X._assparse
+            take = chunks[0][-2] if len(chunks) == 1 else None
+            pos = take.indices if isinstance(take, ev.Take) and take.indices.shape == X.func.shape else None
+            return ev.eval_once((tuple(tuple(ch) for ch in chunks), pos if pos is not None else ev.constant(-1)), arguments={'a': a}, _simplify=False, _optimize=False)
+        kx, val = X_guarded(run)
+        bad = 'raises %r' % val if kx != 'ok' else judge_chunks(val[0], ref)
+        if bad is not None:
+            nbad += 1
+            c.failing_input('_assparse-chunk-wrong:Inflate:' + bad.split(' ')[0], 'the chunks of Inflate._assparse (block dofmap) do not accumulate to the dense Inflate (%s)' % bad, replay); continue
+        c.traces += 1
+        pos = numpy.asarray(val[1])
+        if pos.shape != kshape + dshape:
+            c.count('M:blockpos:position-not-extractable'); continue
+        real = [int(pos[(0,) * len(kshape) + t]) for t in tuples]
+        uniform = all((pos[i] == pos[(0,) * len(kshape)]).all() for i in itertools.product(*[range(m) for m in kshape]))
+        f = answer.split('|')
+        want = [int(numpy.ravel_multi_index(t, dshape)) for t in tuples]
+        nchecked += 1
+        if not uniform or len(f) != 3 or f[1] != ints(real) or f[2] != 'spec-agrees' or real != want:
+            nbad += 1
+            c.broken_no_input('corr:inflate-block-position', 'the block position of Inflate._assparse differs from the Lean model blockStrides/stridedPos (or from the row-major position) although the chunks denote the dense array',
+                              dict(replay, real=real, rowmajor=want))
+    c.obligation('corr:inflate-block-position(blockStrides,stridedPos)', nbad == 0 and nchecked > 0, 'correspondence', '%d block dofmaps (1..4 axes): positions of the real chunks = model = row-major' % nchecked)
+
+
 def m_chunks(c, n):
     """per class: the REAL `_assparse` chunks of X(child), where the chunk of `child` is a known entry list, must accumulate
     (exactly) to the NumPy meaning of X applied to the dense child (`chunks_denote`, one class at a time)"""
@@ -805,17 +870,7 @@ def m_chunks(c, n):
         if k != 'ok':
             nbad += 1
             c.failing_input('_assparse-raises:' + op, '%s._assparse on a sparse operand raises %r' % (op, val), replay); continue
-        acc, bad = {}, None
-        for ch in val:
-            *idx, v = [numpy.asarray(a) for a in ch]
-            if any(i.shape != v.shape or i.dtype.kind not in 'iu' for i in idx) or len(idx) != ref.ndim: bad = 'format'; break
-            for pos in itertools.product(*[range(k) for k in v.shape]):
-                t = tuple(int(i[pos]) for i in idx)
-                if any(not 0 <= a < b for a, b in zip(t, ref.shape)): bad = 'range'
-                acc[t] = acc.get(t, 0) + frac(v[pos])
-        if bad is None:
-            for pos in itertools.product(*[range(k) for k in ref.shape]):
-                if acc.get(pos, 0) != frac(ref[pos]): bad = 'scatter'; break
+        bad = judge_chunks(val, ref)
         if bad is not None:
             nbad += 1
             c.failing_input('_assparse-chunk-wrong:%s:%s' % (op, bad), 'the chunks of %s._assparse do not accumulate to %s of the dense operand (clause %s)' % (op, op, bad),
@@ -1026,10 +1081,13 @@ def run_batched(c, streams):
             raise Infra('stream did not finish after receiving its answers')
     result = {}
     def drive():
+        import time
+        t0 = time.time()
         try:
             result['ans'] = c.model(flat)
         except BaseException as ex:
             result['exc'] = ex
+        result['t'] = time.time() - t0
     t = threading.Thread(target=drive)
     t.start()
     try:
@@ -1041,7 +1099,7 @@ def run_batched(c, streams):
     if 'exc' in result:
         raise result['exc']
     ans = result['ans']
-    c.log('Lean driver answered %d requests' % len(ans))
+    c.log('Lean driver answered %d requests in %.1fs' % (len(ans), result['t']))
     pos = 0
     for g, rs in zip(streams, reqs):
         if rs: resume(g, ans[pos:pos+len(rs)])
@@ -1087,10 +1145,10 @@ def run(c):
     c.log('proofs built and audited')
     quick = c.tier == 'quick'
     streams = [m_compress(c, 300 if quick else 20000), m_accumulate(c, 100 if quick else 3000), m_unique(c, 60 if quick else 2000),
-               m_assparse(c, 60 if quick else 2000), m_chunks(c, 150 if quick else 3000), m_selftest(c, 80 if quick else 3000), m_function(c, 25 if quick else 300),
+               m_assparse(c, 60 if quick else 2000), m_blockpos(c, 30 if quick else 600), m_chunks(c, 150 if quick else 3000), m_selftest(c, 80 if quick else 3000), m_function(c, 25 if quick else 300),
                v_stream(c, 60 if quick else 1000, 4 if quick else 5),
                v_stream(c, 0, 4 if quick else 5, 240 if quick else 4000, prefix='S', late=True,
-                        struct=dict(prod=40, orders2=1, inflate=40, loop=50, dag5=40) if quick else dict(prod=1000, orders2=4, orders3=2, inflate=1000, loop=800, dag5=1000))]
+                        struct=dict(prod=60, orders2=1, inflate=40, loop=50, dag5=40) if quick else dict(prod=1000, orders2=4, orders3=2, inflate=1000, loop=800, dag5=1000))]
     run_batched(c, streams)
     for b in broken:
         c.broken_no_input('proof', b, dict(detail=b))
